@@ -231,3 +231,28 @@ func MinimalHeader(v4 bool) [128]byte {
 	binary.BigEndian.PutUint32(h[76:], 0x0000D32D)
 	return h
 }
+
+// TextDescriptionFull builds a v2 'desc' tag with non-empty Unicode and ScriptCode parts.
+func TextDescriptionFull(ascii string, unicode []uint16, script string) []byte {
+	var b bytes.Buffer
+	b.WriteString("desc")
+	b.Write(be32(0))
+	b.Write(be32(uint32(len(ascii) + 1)))
+	b.WriteString(ascii)
+	b.WriteByte(0)
+	b.Write(be32(0x656E5553)) // unicode language code 'enUS'
+	b.Write(be32(uint32(len(unicode) + 1)))
+	for _, u := range unicode {
+		b.Write([]byte{byte(u >> 8), byte(u)})
+	}
+	b.Write([]byte{0, 0})
+	b.Write(be16(0)) // scriptcode code
+	if len(script) > 66 {
+		script = script[:66]
+	}
+	b.WriteByte(byte(len(script) + 1))
+	s := make([]byte, 67)
+	copy(s, script)
+	b.Write(s)
+	return b.Bytes()
+}
